@@ -317,7 +317,35 @@ type diskTrack struct {
 
 	kfRequested time.Time
 	lastKf      time.Time
-	savedKf     *rtp.Packet
+	// packets that start the keyframes that haven't been written yet
+	savedKf []*rtp.Packet
+}
+
+// saveKf remembers a packet that starts a keyframe.
+// Called locked.
+func (t *diskTrack) saveKf(p *rtp.Packet) {
+	for _, q := range t.savedKf {
+		if q.Timestamp == p.Timestamp {
+			return
+		}
+	}
+	if len(t.savedKf) >= 16 {
+		t.savedKf = t.savedKf[1:]
+	}
+	t.savedKf = append(t.savedKf, p)
+}
+
+// findKf returns the saved packet that starts the keyframe with
+// timestamp ts, if any, and forgets the keyframes that precede it.
+// Called locked.
+func (t *diskTrack) findKf(ts uint32) *rtp.Packet {
+	for i, q := range t.savedKf {
+		if q.Timestamp == ts {
+			t.savedKf = t.savedKf[i:]
+			return q
+		}
+	}
+	return nil
 }
 
 func newDiskConn(client *Client, up conn.Up, remoteTracks []conn.UpTrack) (*diskConn, error) {
@@ -510,7 +538,7 @@ func (t *diskTrack) writeRTP(p *rtp.Packet) error {
 	if len(codec) > 6 && strings.EqualFold(codec[:6], "video/") {
 		kf, _ := gcodecs.Keyframe(codec, p)
 		if kf {
-			t.savedKf = p
+			t.saveKf(p)
 			t.lastKf = time.Now()
 			if !valid(t.origin) {
 				t.setOrigin(
@@ -567,15 +595,12 @@ func (t *diskTrack) writeBuffered(force bool) error {
 
 		var keyframe bool
 		if len(codec) > 6 && strings.EqualFold(codec[:6], "video/") {
-			if t.savedKf == nil {
-				keyframe = false
-			} else {
-				keyframe = (ts == t.savedKf.Timestamp)
-			}
+			kfp := t.findKf(ts)
+			keyframe = kfp != nil
 
 			if keyframe {
 				w, h := gcodecs.KeyframeDimensions(
-					codec, t.savedKf,
+					codec, kfp,
 				)
 				err := t.conn.initWriter(w, h, t, ts)
 				if err != nil {
